@@ -54,7 +54,8 @@ func formatNameTags(name string, tags gostatsd.Tags) string {
 		kv := strings.SplitN(tag, ":", 2)
 
 		var key, value string
-		if len(kv) == 1 {
+		if len(kv) == 1 || kv[1] == "" {
+			// no value, or an empty one ("key:"), which the line protocol does not allow: an unnamed tag
 			key = "unnamed"
 			value = kv[0]
 		} else {
